@@ -140,6 +140,12 @@ pub trait Serialize {
     /// was just written in front of it -- C13: an attribute value cannot close its own quotes
     fn serialize_attr_value<'w, W: Write>(&self, serializer: SimpleTypeSerializer<&'w mut W>) -> (r: Result<&'w mut W, SeError>)
         requires attr_quote_ok((*serializer.writer).out(), serializer.target);
+    /// THE SAME FOREIGN CALL, OBSERVED, for the items of an xs:list (SimpleSeq::serialize_element, by a declared rewrite of that one call
+    /// which also names, as ghost arguments, what the property wants handed over): every item gets a serializer for the SAME position
+    /// (attribute value or text) and quoting level as the list, and the delimiter exactly between items -- C13: an item of a list in an
+    /// attribute cannot close the attribute's quotes (seed C13_j)
+    fn serialize_list_item<W: Write>(&self, target: Ghost<QuoteTarget>, level: Ghost<QuoteLevel>, delim: Ghost<bool>, serializer: AtomicSerializer<W>) -> (r: Result<bool, SeError>)
+        requires serializer.target == target@, serializer.level == level@, serializer.write_delimiter == delim@;
 }
 /// the value position opened by a quote character is escaped for exactly that quote
 pub open spec fn attr_quote_ok(out: BSeq, target: QuoteTarget) -> bool {
@@ -1908,11 +1914,12 @@ impl<'w, W: Write> SerializeSeq for SimpleSeq<&'w mut W> {
     }
     open spec fn seq_end_post(pre: Self, r: Result<&'w mut W, SeError>) -> bool { r is Ok }
 //@extract simple_type::SimpleSeq::serialize_element | src/se/simple_type.rs :: impl<W: Write> SerializeSeq for SimpleSeq<W> :: fn serialize_element | serves=C13 features=serialize
+//@rewrite value.serialize(AtomicSerializer { ==> value.serialize_list_item(Ghost(self.target), Ghost(self.level), Ghost(!self.is_empty), AtomicSerializer {
     fn serialize_element<T>(&mut self, value: &T) -> Result<(), Self::Error>
     where
         T: ?Sized + Serialize,
     {
-        if value.serialize(AtomicSerializer {
+        if value.serialize_list_item(Ghost(self.target), Ghost(self.level), Ghost(!self.is_empty), AtomicSerializer {
             writer: &mut self.writer,
             target: self.target,
             level: self.level,
